@@ -101,6 +101,25 @@ func leavesC03() []*qast.Node {
 	for _, p := range []string{"w*", "*w", "w?x", "*", "?", "a*b*c", "x_y*", "?*"} {
 		eq("s", qast.Wi(p))
 	}
+	// escapes next to wild cards: the escaped character is literal, the wild card stays one
+	for _, p := range []string{`foo\ *`, `a\*b*`, `\?x?`, `x\\*`, `*\ \ *`} {
+		eq("s", qast.Wi(p))
+	}
+	for _, p := range []string{`x\ \*`, `a\?`} { // (a lone escaped * is the string "*": known findings KF-C04-2 / KF-C08-1)
+		eq("s", qast.W(p))
+	}
+	// quoted text that spells a number is a string wherever it stands
+	for _, v := range []string{"5", "-5", "1.5", "10", "9"} {
+		eq("s", qast.Q(v))
+	}
+	for _, k := range []string{qast.LGt, qast.LLe} {
+		ls = append(ls, L(qast.Leaf{Kind: k, Field: "s", Val: qast.Q("10")}))
+	}
+	// (inclusive and closed only: exclusive / open-ended string ranges are known findings KF-C03-2 / -3 whatever the bounds spell)
+	for _, b := range [][2]string{{"10", "9"}, {"1", "5"}, {"10000", "19999"}} {
+		ls = append(ls, L(qast.Leaf{Kind: qast.LRange, Field: "s", Lo: qast.Q(b[0]), Hi: qast.Q(b[1]), Incl: true}))
+	}
+	ls = append(ls, L(qast.Leaf{Kind: qast.LList, Field: "s", List: []qast.Value{qast.Q("1"), qast.Q("2"), qast.Q("10")}}))
 	return ls
 }
 
